@@ -314,7 +314,7 @@ func discharge(obls []*Obligation, timeout int, all bool, workers int) {
 			defer wg.Done()
 			for j := range ch {
 				r := Solve(j.script, timeout, j.o.Strings, all)
-				if r.Verdict == "unknown" && !j.o.Cover && !noRetry {
+				if r.Verdict == "unknown" && !j.o.Cover && !noRetry && os.Getenv("GOVC_NO_RETRY") == "" {
 					// solver instability guard: one retry with other seeds and a longer budget before an
 					// obligation is reported as undischarged
 					r2 := SolveSeeded(j.script, timeout*3, j.o.Strings, 7)
@@ -756,6 +756,9 @@ func cmdDump(args []string) int {
 	for _, r := range reps {
 		if r.Unsupported != "" {
 			fmt.Println("UNSUPPORTED", r.Key, ":", r.Unsupported)
+		}
+		for _, m := range r.MissingAnchors {
+			fmt.Println("UNDECIDED", r.Key, ":", m)
 		}
 		for _, a := range r.Abstraction {
 			fmt.Println("  abstraction:", r.Key, ":", a)
